@@ -2,7 +2,7 @@ SPECIFICATION Spec
 CONSTANTS
   Kind = "lb"
   Threads = {1}
-  MaxCalls = 6
+  MaxCalls = 5
   Chunks = {0}
   Ns = {1, 2, 3}
   Sizes = {0, 1, 5}
